@@ -354,7 +354,7 @@ func generate(a wh.Args, out *wh.Out) {
 		expWg.Add(1)
 		go func() {
 			defer expWg.Done()
-			_, obs, err := runReq(req)
+			req, obs, err := runReq(req)
 			if err != nil {
 				panic(err)
 			}
@@ -420,6 +420,31 @@ func generate(a wh.Args, out *wh.Out) {
 		out.Add("hist.accepted", acc)
 	}
 	expWg.Wait()
+	// (run in the foreground once the background load is gone: the sharper the stamps, the sharper the window inequality)
+	var stalls []string
+	// presentations held up right in front of the repository lock for about a window, then a duplicate inside the window
+	for i, wms := range []int{40, 60, 100} {
+		for j, sp := range []int{60, 110, 250} {
+			if !thorough && (i+j)%2 == 1 {
+				continue
+			}
+			via := []string{"repo", "mw", "dec"}[(i+j)%3]
+			stalls = append(stalls, fmt.Sprintf("stall %s %d %d %d", via, wms, sp, []int{65, 80}[(i+j)%2]))
+		}
+	}
+	if thorough {
+		for _, via := range []string{"repo", "mw", "dec"} {
+			stalls = append(stalls, fmt.Sprintf("stall %s 30 150 70", via), fmt.Sprintf("stall %s 200 100 60", via), fmt.Sprintf("stall %s 80 0 80", via))
+		}
+	}
+	for _, req := range stalls {
+		req2, obs, err := runReq(req)
+		if err != nil {
+			panic(err)
+		}
+		out.Case(req2, obs)
+		out.Count("stall." + strings.Fields(req)[1])
+	}
 	for _, e := range expAll {
 		out.Case(fmt.Sprintf("expire %s %d", e.via, e.ms), e.obs)
 		out.Count("expire." + e.via)
